@@ -55,6 +55,50 @@ func (ft *FT) translate() {
 			nullable[n] = true
 		}
 	}
+	// frame check: a declared `modifies` list of a function with a body must cover
+	// every region the body (transitively, through its callees' frames) writes to
+	// through something that is not freshly allocated
+	if ft.con != nil && len(ft.con.Modifies) > 0 && !ft.con.Trusted && !ft.con.NoBody && !ft.collect {
+		written := map[string]bool{}
+		ft.e.collectMods(fn, written)
+		covered := map[string]bool{}
+		for _, m := range ft.con.Modifies {
+			if strings.HasPrefix(m, "map(") && strings.HasSuffix(m, ")") {
+				// the map's type decides the regions; resolved against the parameters
+				if ex, err := ParseExprM(m[4:len(m)-1], ft.e.contracts.Macros); err == nil {
+					env0 := &CEnv{ft: ft, vars: map[string]*CV{}, cur: State{}, old: State{}, pkg: fn.Pkg.Pkg}
+					for _, p := range fn.Params {
+						env0.vars[p.Name()] = &CV{T: L(p.Name()), Type: p.Type(), Sort: ft.sortOf(p.Type())}
+					}
+					if cv, err := env0.Eval(ex); err == nil && cv.Type != nil {
+						if mt, ok := types.Unalias(cv.Type).Underlying().(*types.Map); ok {
+							ks, vs := ft.sortOf(mt.Key()), ft.sortOf(mt.Elem())
+							covered["MK."+ks], covered["MV."+ks+"->"+vs], covered["MN"] = true, true, true
+						}
+					}
+				}
+				continue
+			}
+			if strings.HasPrefix(m, "*") || strings.HasPrefix(m, "[]") {
+				pn := strings.TrimPrefix(strings.TrimPrefix(m, "*"), "[]")
+				for _, p := range fn.Params {
+					if p.Name() == pn {
+						if region, _, _, _ := ft.ptrRegion(p.Type()); region != "" {
+							covered[region] = true
+						}
+					}
+				}
+				continue
+			}
+			covered[m] = true
+		}
+		for _, r := range sortedKeys(written) {
+			if !covered[r] {
+				ft.obls = append(ft.obls, &Obligation{Name: "frame:" + r, Kind: "shape", Tags: ft.allTags(), Guard: tTrue, Goal: tFalse,
+					Src: "the body writes region " + r + " which the declared `modifies` does not cover", Fn: fn.String()})
+			}
+		}
+	}
 	nilTested := nilComparedParams(fn)
 	for _, p := range fn.Params {
 		v := b.declVal(p)
@@ -447,7 +491,7 @@ func (ft *FT) unfoldInstances(terms []*T) []*T {
 func containsBound(t *T) bool {
 	found := false
 	t.Walk(func(n *T) {
-		if n.Args == nil && (strings.Contains(n.Op, "!q") || strings.HasPrefix(n.Op, "j!") || strings.HasPrefix(n.Op, "k!")) {
+		if n.Args == nil && (strings.Contains(n.Op, "!q") || strings.HasPrefix(n.Op, "j!") || strings.HasPrefix(n.Op, "k!") || strings.HasPrefix(n.Op, "x!") || strings.HasPrefix(n.Op, "n!")) {
 			found = true
 		}
 	})
